@@ -64,7 +64,19 @@ impl<'a> Visitor for Enumerate<'a> {
         }
         let c = cfg();
         let k = if l.nslots() == 1 { 0 } else { 2 };
-        let n = sweep_points::<F, D>(d, &l, &jobs, k, &c, &exec_generic::<F, D>, self.stats);
+        let mut n = sweep_points::<F, D>(d, &l, &jobs, k, &c, &exec_generic::<F, D>, self.stats);
+        if l.ngroups() > 0 {
+            // vector types: every presence pattern of the optional parts x the tensor grid of part
+            // values, on both sides of the switch |x| = 1 (the closed forms divide by x, x^2, x^3:
+            // quotient rules with absent / present parts)
+            let mut pj: Vec<(Op, Vec<f64>)> = Vec::new();
+            for op in [Op::SphJ0, Op::SphJ1, Op::SphJ2] {
+                for x in [1e-3, 0.5, 1.0, 1.75, -2.5] {
+                    pj.push((op, vec![x]));
+                }
+            }
+            n += sweep_many::<F, D>(d, &l, &pj, 600, &c, &exec_generic::<F, D>, self.stats).cases;
+        }
         self.axes.push(json!({"type": l.type_name, "points": jobs.len() / 3, "cases": n}));
     }
 }
